@@ -20,7 +20,8 @@ TokLine(t) ==
       [] t = 13 -> <<SP, SP, DOT>>                        \* "  ."     an indented dot is text, not the empty-line marker
       [] t = 14 -> <<SP, TAB, DOT, SP>>                   \* " \t. "   likewise, with trailing space
       [] t = 15 -> <<SP, HASH, 104>>                      \* " #h"     a continuation line whose text starts with '#' is text, not a comment
-AllTokens == 1..15
+      [] t = 16 -> <<SP, DOT, SP, TAB>>                   \* " . \t"   the empty-line marker followed by blanks (trailing blanks are not text)
+AllTokens == 1..16
 
 Eol(crlf) == IF crlf THEN <<CR, LF>> ELSE <<LF>>
 Doc(toks, crlf, final) ==
